@@ -12,9 +12,12 @@ def wEnabled (cfg : Cfg) (s : State) (w : Writer) : Bool :=
   | .stalling, _ => decide (s.sealed < cfg.limit)
   | .stallingLocked, _ => decide (s.sealed < cfg.limit)
 
-def kEnabled (cfg : Cfg) (s : State) (pickRot : Bool) : WkPhase → Bool
-  | .idle => if pickRot then decide (s.rot > 0) else decide (s.fl > 0)
-  | .rotWait => s.jlock.isNone
+def kEnabled (cfg : Cfg) (s : State) (pick : Pick) : WkPhase → Bool
+  | .idle => match pick with
+    | .rot => !s.rotq.isEmpty
+    | .flush => decide (s.fl > 0)
+    | .compact => decide (s.cp > 0)
+  | .rotWait _ => s.jlock.isNone
   | .flushWait => s.jlock.isNone
   | .sendFlush => s.room cfg
   | _ => true
@@ -25,8 +28,8 @@ def enabled (cfg : Cfg) (s : State) : Tid → Bool
   | .writer i => match s.writers[i]? with
     | some w => wEnabled cfg s w
     | none => false
-  | .worker j pickRot => match s.workers[j]? with
-    | some p => kEnabled cfg s pickRot p
+  | .worker j pick => match s.workers[j]? with
+    | some p => kEnabled cfg s pick p
     | none => false
 
 theorem step_noop (cfg : Cfg) (s : State) (tid : Tid) (h : enabled cfg s tid = false) :
@@ -56,7 +59,7 @@ theorem step_noop (cfg : Cfg) (s : State) (tid : Tid) (h : enabled cfg s tid = f
         rw [hph] at h
         simp only [decide_eq_false_iff_not, Nat.not_lt] at h
         simp [h]
-  | worker j pickRot =>
+  | worker j pick =>
     simp only [stepT, enabled] at *
     cases hp : s.workers[j]? with
     | none => rfl
@@ -67,21 +70,39 @@ theorem step_noop (cfg : Cfg) (s : State) (tid : Tid) (h : enabled cfg s tid = f
       | idle =>
         simp only [kEnabled] at h
         simp only
-        by_cases hr : pickRot = true
-        · simp only [hr, if_true, decide_eq_false_iff_not] at h ⊢
+        cases pick with
+        | rot =>
+          simp only at h ⊢
+          cases hq : s.rotq with
+          | nil => rfl
+          | cons g r => rw [hq] at h; simp at h
+        | flush =>
+          simp only [decide_eq_false_iff_not] at h ⊢
           simp [h]
-        · simp only [hr, Bool.false_eq_true, if_false, decide_eq_false_iff_not] at h ⊢
+        | compact =>
+          simp only [decide_eq_false_iff_not] at h ⊢
           simp [h]
-      | rotWait => simp only [kEnabled] at h; simp [h]
-      | rotLocked => simp [kEnabled] at h
+      | rotWait g => simp only [kEnabled] at h; simp [h]
+      | rotLocked g => simp [kEnabled] at h
       | sendFlush => simp only [kEnabled] at h; simp [h]
       | flushWait => simp only [kEnabled] at h; simp [h]
       | flushLocked => simp [kEnabled] at h
       | flushing => simp [kEnabled] at h
+      | compacting => simp [kEnabled] at h
+
+theorem rank_sendCompacts (cfg : Cfg) (n : Nat) (s : State) :
+    rank cfg (s.sendCompacts cfg n) ≤ rank cfg s + 2 * n := by
+  obtain ⟨_, _, _, h4, h5, _, _, h8, h9, _, h11⟩ := sendCompacts_fields cfg n s
+  simp only [rank, h4, h5, h8, h9]
+  omega
 
 theorem step_rank (cfg : Cfg) (hc : cfg.Live) (s : State) (tid : Tid) (h : Inv s)
-    (he : enabled cfg s tid = true) : rank (stepT cfg s tid) < rank s := by
+    (he : enabled cfg s tid = true) : rank cfg (stepT cfg s tid) < rank cfg s := by
   obtain ⟨hbs, hub, hlim⟩ := hc
+  generalize hK : 2 * cfg.fanout = K
+  have hrank : ∀ st : State, rank cfg st = (st.writers.map (wrank K)).sum + (st.workers.map (krank K)).sum +
+      (8 + K) * st.rotq.length + (4 + K) * st.fl + 2 * st.cp := by
+    intro st; simp only [rank, hK]
   cases tid with
   | writer i =>
     simp only [stepT, enabled] at *
@@ -96,37 +117,39 @@ theorem step_rank (cfg : Cfg) (hc : cfg.Live) (s : State) (tid : Tid) (h : Inv s
       · rename_i b tl hph htodo
         rw [hph, htodo] at he
         simp only at he
-        simp only [he, if_true, rank]
-        have := sum_map_set wrank s.writers i { w with phase := .locked } w hw
-        have e1 : wrank w = 11 * (tl.length + 1) := by simp [wrank, hph, htodo]
-        have e2 : wrank { w with phase := .locked } = 11 * tl.length + 10 := by simp [wrank, htodo]
+        simp only [he, if_true, hrank]
+        have := sum_map_set (wrank K) s.writers i { w with phase := .locked } w hw
+        have e1 : wrank K w = (11 + K) * tl.length + (11 + K) := by
+          simp [wrank, hph, htodo, Nat.mul_succ]
+        have e2 : wrank K { w with phase := .locked } = (11 + K) * tl.length + (10 + K) := by simp [wrank, htodo]
         rw [e1, e2] at this
         omega
       · rename_i hph htodo
         rw [hph, htodo] at he; simp at he
       · rename_i big tl hph htodo
-        simp only [hub, if_true, rank]
-        have := sum_map_set wrank s.writers i { w with phase := .stalling } w hw
-        have e1 : wrank w = 11 * tl.length + 10 := by simp [wrank, hph, htodo]
-        have e2 : wrank { w with phase := .stalling } = 11 * tl.length + 1 := by simp [wrank, htodo]
+        simp only [hub, if_true, hrank]
+        have := sum_map_set (wrank K) s.writers i { w with phase := .stalling } w hw
+        have e1 : wrank K w = (11 + K) * tl.length + (10 + K) := by simp [wrank, hph, htodo]
+        have e2 : wrank K { w with phase := .stalling } = (11 + K) * tl.length + 1 := by simp [wrank, htodo]
         rw [e1, e2] at this
-        split <;> omega
+        split
+        · simp only [List.length_append, List.length_singleton, Nat.mul_succ]; omega
+        · omega
       · rename_i hph htodo
         rw [hph, htodo] at he; simp at he
       · rename_i hph
         rw [hph] at he
         simp only [decide_eq_true_eq] at he
         have hs : ¬ s.sealed ≥ cfg.limit := by omega
-        simp only [hs, if_false, rank]
-        have hne := hWo.busy (by rw [hph]; simp)
-        have := sum_map_set wrank s.writers i { todo := w.todo.tail, phase := .idle } w hw
-        have e1 : wrank w = 11 * w.todo.tail.length + 1 := by simp [wrank, hph]
-        have e2 : wrank { todo := w.todo.tail, phase := .idle } = 11 * w.todo.tail.length := by simp [wrank]
+        simp only [hs, if_false, hrank]
+        have := sum_map_set (wrank K) s.writers i { todo := w.todo.tail, phase := .idle } w hw
+        have e1 : wrank K w = (11 + K) * w.todo.tail.length + 1 := by simp [wrank, hph]
+        have e2 : wrank K { todo := w.todo.tail, phase := .idle } = (11 + K) * w.todo.tail.length := by simp [wrank]
         rw [e1, e2] at this
         omega
       · rename_i hph
         exact absurd hph hWo.noSL
-  | worker j pickRot =>
+  | worker j pick =>
     simp only [stepT, enabled] at *
     cases hp : s.workers[j]? with
     | none => simp [hp] at he
@@ -138,64 +161,81 @@ theorem step_rank (cfg : Cfg) (hc : cfg.Live) (s : State) (tid : Tid) (h : Inv s
       | idle =>
         simp only [kEnabled] at he
         simp only
-        by_cases hr : pickRot = true
-        · simp only [hr, if_true, decide_eq_true_eq] at he ⊢
-          simp only [he, if_true, rank]
-          have := sum_map_set krank s.workers j .rotWait .idle hp
-          simp only [krank] at this
-          omega
-        · simp only [hr, Bool.false_eq_true, if_false, decide_eq_true_eq] at he ⊢
-          simp only [he, if_true]
-          split
-          · simp only [rank]
-            have := sum_map_set krank s.workers j .flushWait .idle hp
+        cases pick with
+        | rot =>
+          simp only at he ⊢
+          cases hq : s.rotq with
+          | nil => rw [hq] at he; simp at he
+          | cons g r =>
+            simp only [hrank, hq, List.length_cons, Nat.mul_succ]
+            have := sum_map_set (krank K) s.workers j (.rotWait g) .idle hp
             simp only [krank] at this
             omega
-          · simp only [rank]; omega
-      | rotWait =>
+        | flush =>
+          simp only [decide_eq_true_eq] at he ⊢
+          simp only [he, if_true]
+          obtain ⟨f', hf'⟩ : ∃ f', s.fl = f' + 1 := ⟨s.fl - 1, by omega⟩
+          split
+          · simp only [hrank, hf', Nat.add_sub_cancel, Nat.mul_succ]
+            have := sum_map_set (krank K) s.workers j .flushWait .idle hp
+            simp only [krank] at this
+            omega
+          · simp only [hrank, hf', Nat.add_sub_cancel, Nat.mul_succ]; omega
+        | compact =>
+          simp only [decide_eq_true_eq] at he ⊢
+          simp only [he, if_true, hrank]
+          have := sum_map_set (krank K) s.workers j .compacting .idle hp
+          simp only [krank] at this
+          omega
+      | rotWait g =>
         simp only [kEnabled] at he
-        simp only [he, if_true, rank]
-        have := sum_map_set krank s.workers j .rotLocked .rotWait hp
+        simp only [he, if_true, hrank]
+        have := sum_map_set (krank K) s.workers j (.rotLocked g) (.rotWait g) hp
         simp only [krank] at this
         omega
-      | rotLocked =>
+      | rotLocked g =>
         simp only
         split
         · simp only [hbs, Bool.false_eq_true, if_false]
           split
-          · simp only [rank]
-            have := sum_map_set krank s.workers j .idle .rotLocked hp
+          · simp only [hrank, Nat.mul_succ]
+            have := sum_map_set (krank K) s.workers j .idle (.rotLocked g) hp
             simp only [krank] at this
             omega
-          · simp only [rank]
-            have := sum_map_set krank s.workers j .flushWait .rotLocked hp
+          · simp only [hrank]
+            have := sum_map_set (krank K) s.workers j .flushWait (.rotLocked g) hp
             simp only [krank] at this
             omega
-        · simp only [rank]
-          have := sum_map_set krank s.workers j .idle .rotLocked hp
+        · simp only [hrank]
+          have := sum_map_set (krank K) s.workers j .idle (.rotLocked g) hp
           simp only [krank] at this
           omega
       | sendFlush => exact absurd rfl hKo.noSend
       | flushWait =>
         simp only [kEnabled] at he
-        simp only [he, if_true, rank]
-        have := sum_map_set krank s.workers j .flushLocked .flushWait hp
+        simp only [he, if_true, hrank]
+        have := sum_map_set (krank K) s.workers j .flushLocked .flushWait hp
         simp only [krank] at this
         omega
       | flushLocked =>
-        simp only [rank]
-        have := sum_map_set krank s.workers j .flushing .flushLocked hp
+        simp only [hrank]
+        have := sum_map_set (krank K) s.workers j .flushing .flushLocked hp
         simp only [krank] at this
         omega
       | flushing =>
-        simp only [rank]
-        have := sum_map_set krank s.workers j .idle .flushing hp
+        simp only
+        have hle := rank_sendCompacts cfg cfg.fanout { s with sealed := 0, workers := s.workers.set j .idle }
+        have hin : rank cfg { s with sealed := 0, workers := s.workers.set j .idle } + (1 + K) = rank cfg s := by
+          simp only [hrank]
+          have := sum_map_set (krank K) s.workers j .idle .flushing hp
+          simp only [krank] at this
+          omega
+        omega
+      | compacting =>
+        simp only [hrank]
+        have := sum_map_set (krank K) s.workers j .idle .compacting hp
         simp only [krank] at this
         omega
-
-end Fjall.Stall
-
-namespace Fjall.Stall
 
 /-- number of steps of the schedule that changed the state -/
 def effSteps (cfg : Cfg) (s : State) : List Tid → Nat
@@ -203,7 +243,7 @@ def effSteps (cfg : Cfg) (s : State) : List Tid → Nat
   | t :: ts => (if enabled cfg s t then 1 else 0) + effSteps cfg (stepT cfg s t) ts
 
 theorem effSteps_le (cfg : Cfg) (hc : cfg.Live) (s : State) (sched : List Tid) (h : Inv s) :
-    effSteps cfg s sched + rank (run cfg s sched) ≤ rank s := by
+    effSteps cfg s sched + rank cfg (run cfg s sched) ≤ rank cfg s := by
   induction sched generalizing s with
   | nil => simp [effSteps, run]
   | cons t ts ih =>
@@ -243,7 +283,7 @@ theorem progress (cfg : Cfg) (hc : cfg.Live) (s : State) (h : Inv s) (hwk : s.wo
         | cons b tl => rfl
     | k j =>
       obtain ⟨p, hp, hh⟩ := h.held _ hj
-      refine ⟨.worker j false, ?_⟩
+      refine ⟨.worker j .flush, ?_⟩
       simp only [enabled, hp]
       cases p <;> simp_all [WkPhase.holds, kEnabled]
   | none =>
@@ -257,16 +297,17 @@ theorem progress (cfg : Cfg) (hc : cfg.Live) (s : State) (h : Inv s) (hwk : s.wo
     by_cases hB : ∃ (j : Nat) (p : WkPhase), s.workers[j]? = some p ∧ p ≠ .idle
     · obtain ⟨j, p, hp, hne⟩ := hB
       have hKo := h.kOk j p hp
-      refine ⟨.worker j false, ?_⟩
+      refine ⟨.worker j .flush, ?_⟩
       simp only [enabled, hp]
       cases p with
       | idle => exact absurd rfl hne
-      | rotWait => simp [kEnabled, hj]
-      | rotLocked => have := hKo.lock rfl; rw [hj] at this; cases this
+      | rotWait g => simp [kEnabled, hj]
+      | rotLocked g => have := hKo.lock rfl; rw [hj] at this; cases this
       | sendFlush => exact absurd rfl hKo.noSend
       | flushWait => simp [kEnabled, hj]
       | flushLocked => have := hKo.lock rfl; rw [hj] at this; cases this
       | flushing => rfl
+      | compacting => rfl
     -- nobody holds the lock, no idle writer has work, all workers are idle
     have hex : ∃ w ∈ s.writers, w.todo.isEmpty = false := by
       simp only [State.done, List.all_eq_false] at hnd
@@ -296,14 +337,14 @@ theorem progress (cfg : Cfg) (hc : cfg.Live) (s : State) (h : Inv s) (hwk : s.wo
         rw [List.countP_eq_zero]
         intro p hp
         rw [hall p hp]; simp [WkPhase.flushy]
-      have hse := h.sealedEq
+      have hse := h.sealedLe
       have htl := h.tasksLe
       have hfl : s.fl > 0 := by omega
       cases hws : s.workers with
       | nil => exact absurd hws hwk
       | cons p0 rest =>
         have hp0 : p0 = .idle := hall p0 (by rw [hws]; simp)
-        refine ⟨.worker 0 false, ?_⟩
+        refine ⟨.worker 0 .flush, ?_⟩
         simp [enabled, hws, hp0, kEnabled, hfl]
 
 end Fjall.Stall
